@@ -2,12 +2,12 @@ package sx
 
 import (
 	"fmt"
-	"sync"
 	"go/token"
 	"go/types"
 	"runtime/debug"
 	"slices"
 	"strings"
+	"sync"
 
 	"golang.org/x/tools/go/ssa"
 
@@ -16,11 +16,11 @@ import (
 
 // ---- control sentinels (host panics) ----
 
-type targetPanic struct{ v Value }      // a Go-level panic in the interpreted program
-type pathAbort struct{ reason string }  // the path is infeasible / ended by assume(false)
+type targetPanic struct{ v Value }        // a Go-level panic in the interpreted program
+type pathAbort struct{ reason string }    // the path is infeasible / ended by assume(false)
 type inconclusive struct{ reason string } // the engine cannot decide this path
-type threadKill struct{}                // unwinds a parked thread at path end
-type pathEnd struct{}                   // harness asked to stop the path (vx.Stop)
+type threadKill struct{}                  // unwinds a parked thread at path end
+type pathEnd struct{}                     // harness asked to stop the path (vx.Stop)
 
 type decision struct {
 	N      int
@@ -59,28 +59,28 @@ type Interp struct {
 	ex   *Explorer
 
 	// path state
-	prefix  []decision
-	log     []decision
-	silent  int  // decisions [0,silent) and the assertions before decision `silent` are already in the solver
-	live    bool // assertions are being sent
-	pc      []*smt.Term
-	inputs  []*smt.Term
+	prefix    []decision
+	log       []decision
+	silent    int  // decisions [0,silent) and the assertions before decision `silent` are already in the solver
+	live      bool // assertions are being sent
+	pc        []*smt.Term
+	inputs    []*smt.Term
 	inputSeen map[*smt.Term]bool
-	steps   int
-	globals map[*ssa.Global]*Value
-	initDone map[*ssa.Package]bool
-	side    map[*Value]interface{}
-	names   map[string]int
-	res     *PathResult
-	m       *models
+	steps     int
+	globals   map[*ssa.Global]*Value
+	initDone  map[*ssa.Package]bool
+	side      map[*Value]interface{}
+	names     map[string]int
+	res       *PathResult
+	m         *models
 
-	threads []*Thread
-	cur     *Thread
-	pending interface{} // sentinel raised in a non-main thread, to be re-raised in main
-	killed  bool
+	threads  []*Thread
+	cur      *Thread
+	pending  interface{} // sentinel raised in a non-main thread, to be re-raised in main
+	killed   bool
 	preempts int
 
-	fnStats map[*ssa.Function]int
+	fnStats   map[*ssa.Function]int
 	localWork [][]decision
 	holding   bool
 	wg        sync.WaitGroup
@@ -486,6 +486,7 @@ func (in *Interp) visitInstr(fr *frame, instr ssa.Instruction) continuation {
 		if p == nil {
 			in.goPanic("runtime error: invalid memory address or nil pointer dereference")
 		}
+		in.memAccess(p, true)
 		*p = copyVal(in.get(fr, instr.Val))
 
 	case *ssa.If:
@@ -827,8 +828,14 @@ func (in *Interp) decide(alts []*smt.Term, kind string) int {
 	}
 	// fresh decision: feasibility of each alternative
 	var feas []int
+	complementary := kind == "if" && n == 2
 	for i, a := range alts {
 		if a == in.tb.False {
+			continue
+		}
+		if complementary && i == 1 && len(feas) == 0 {
+			// the path condition is satisfiable and alts[0] is not: alts[1] must be
+			feas = append(feas, 1)
 			continue
 		}
 		r := smt.Sat
@@ -870,6 +877,9 @@ func (in *Interp) decide(alts []*smt.Term, kind string) int {
 	}
 	in.log = append(in.log, d)
 	in.res.Decisions++
+	if d.Pushes {
+		in.res.note("fork:" + kind)
+	}
 	return d.Chosen
 }
 
@@ -908,6 +918,8 @@ func (in *Interp) fresh(kind string, s smt.Sort) *smt.Term {
 		suffix = "_B"
 	case smt.KStr:
 		suffix = "_S"
+	case smt.KInt:
+		suffix = "_I"
 	}
 	return in.tb.Var(fmt.Sprintf("%s_%d%s", kind, k, suffix), s)
 }
@@ -943,6 +955,7 @@ func (in *Interp) callBuiltin(caller *frame, fn *ssa.Builtin, args []Value) Valu
 		if len(src) == 0 {
 			return dst
 		}
+		in.memAccess(&src[0], false)
 		cp := make([]Value, len(src))
 		for i, v := range src {
 			cp[i] = copyVal(v)
@@ -963,6 +976,10 @@ func (in *Interp) callBuiltin(caller *frame, fn *ssa.Builtin, args []Value) Valu
 			return mkBV(64, uint64(n))
 		case Slice:
 			n := min(len(dst.A), len(s.A))
+			if n > 0 {
+				in.memAccess(&s.A[0], false)
+				in.memAccess(&dst.A[0], true)
+			}
 			tmp := make([]Value, n)
 			for i := 0; i < n; i++ {
 				tmp[i] = copyVal(s.A[i])
